@@ -31,7 +31,7 @@ func init() {
 			Setup: txnSetup, Exec: txnExec, Random: nil, Sig: txnSig, Assume: assume, MCWorkers: 12,
 		}
 	}
-	c05 := mk("C05", []string{"cells are small integers and NULL; statement forms: INSERT (1 and 2 rows, wrong length), UPDATE/DELETE with and without WHERE, REPLACE on one key column, ADD/DROP/RENAME column, on file tables and a temporary table; INSERT..SELECT, column lists, UPDATE..FROM join, multi-assignment UPDATE, ADD FIRST / DEFAULT expression, CREATE TABLE AS SELECT, SET ENCODING, inserts made by user-defined functions"}, "TxnGen_create.cfg", "TxnGen_temp.cfg", "TxnGen_two.cfg", "TxnGen_typed.cfg", "TxnGen_dirs.cfg")
+	c05 := mk("C05", []string{"cells are small integers and NULL; statement forms: INSERT (1 and 2 rows, wrong length), UPDATE/DELETE with and without WHERE, REPLACE on one key column, ADD/DROP/RENAME column, on file tables and a temporary table; INSERT..SELECT, column lists, UPDATE..FROM join, multi-assignment UPDATE, ADD FIRST / DEFAULT expression, CREATE TABLE AS SELECT, SET ENCODING, inserts made by user-defined functions"}, "TxnGen_create.cfg", "TxnGen_temp.cfg", "TxnGen_two.cfg", "TxnGen_typed.cfg", "TxnGen_dirs.cfg", "TxnGen_reads.cfg")
 	c05.Random = func(r *core.Run, k int) (Action, []Action) { return txnRandom(r, k, "dml") }
 	c08 := mk("C08", []string{"failure causes modelled: division by zero at one row of a multi-row UPDATE, wrong row length, unknown field after RENAME/DROP, duplicate column, existing file, missing file, failing DEFAULT expression, ambiguous join update, CREATE TABLE AS SELECT with wrong names / failing query, COMMIT that cannot encode a changed file, one UPDATE of two tables failing in the second"}, "TxnGen_create.cfg", "TxnGen_commitfail.cfg", "TxnGen_temp.cfg", "TxnGen_two.cfg", "TxnGen_typed.cfg")
 	c08.Random = func(r *core.Run, k int) (Action, []Action) { return txnRandom(r, k, "fail") }
